@@ -13,6 +13,10 @@ A case has four parts:
   events   — event kinds given to a real DeferredSnapshotActionCallback over recording stand-ins for the action context,
              the snapshot and the push service;
   stages   — `stage` config values (absent, every stage constant, near misses) given to `_is_deferred`.
+Separate labelled stream `cb-kf-base` (known finding C15/baseexception-skips-rest): a BaseException in the MIDDLE of the
+spans / results — the items after it are skipped by the code (a span is never closed, a result never processed: the
+statement is violated; `c15_span_base_failure_witness`, `c15_exit_base_failure_witness`).  The oracle is the same; the
+model comparison is the same (the translated loops skip the rest too).
 """
 import types
 
@@ -22,6 +26,7 @@ import rig
 STAGES = [None, 'line_capture', 'method_capture', 'line_start', 'line_end', 'method_start', 'method_end',
           'LINE_CAPTURE', 'method_capture ', 'capture', '']
 EVENTS = ['return', 'exception', 'line', 'call', 'Return', 'opcode', '']
+FID_BASE = 'C15/baseexception-skips-rest'
 
 
 class _Base(BaseException):
@@ -227,6 +232,60 @@ def oracle(case, obs):
     return v[:6]
 
 
+def base_mid(xs):
+    """index of a 'base' fault that is followed by another item, or None"""
+    for i, x in enumerate(xs[:-1]):
+        if x == 'base':
+            return i
+    return None
+
+
+def known_finding(case, obs):
+    """instance of C15/baseexception-skips-rest: a BaseException fault at a position that is followed by further items
+    (structural), AND the observation is exactly the known behaviour — everything up to and including the failing item
+    done once, everything after it skipped, the BaseException let out — nothing else wrong."""
+    if 'raised' in obs:
+        return None
+    bs = base_mid(case['spans'])
+    br = base_mid([h for h, _ in case['results']])
+    if bs is None and br is None:
+        return None
+    plain = dict(case)
+    sp, rs = obs['spans'], obs['results']
+    if bs is not None:
+        n = len(case['spans'])
+        if sp['closed'] != [1] * (bs + 1) + [0] * (n - bs - 1) or sp['escaped'] != 'base' or not sp['is_callback']:
+            return None
+        plain['spans'] = case['spans'][:bs] + ['base']
+    if br is not None:
+        hows = [h for h, _ in case['results']]
+        if rs['registered'] != [i for i, h in enumerate(hows[:br]) if h == 'cb'] or rs['escaped'] != 'base':
+            return None
+        if any(c is not None and c != (1 if i <= br else 0) for i, c in enumerate(rs['calls'])):
+            return None
+        plain['results'] = case['results'][:br + 1]
+    # whatever else the oracle says must also be said of the case cut after the failing item (where the finding is
+    # not involved): then it is something else
+    o2 = dict(obs)
+    if bs is not None:
+        o2['spans'] = dict(sp, closed=sp['closed'][:bs + 1], order=[i for i in sp['order'] if i <= bs])
+    if br is not None:
+        o2['results'] = dict(rs, calls=rs['calls'][:br + 1])
+    return FID_BASE if not oracle(plain, o2) else None
+
+
+def base_replay():
+    return {'kind': 'cb', 'stream': 'cb-kf-base', 'spans': [None, 'base', None],
+            'results': [['cb', True], ['base', False], ['cb', True]], 'events': ['return'], 'stages': [None]}
+
+
+def known_replays():
+    return [(FID_BASE, 'a BaseException (not an Exception) raised by the second of three result.process calls in '
+                       'TriggerContext.__exit__ / by the second of three span.close() calls in SpanActionCallback.process: '
+                       'the third result is never processed (the span its span action had already opened gets no callback '
+                       'and is never closed), the third span is never closed', base_replay())]
+
+
 # --------------------------------------------------------------------------------------- model
 def model_request(case, obs):
     if 'raised' in obs:
@@ -278,6 +337,22 @@ def gen_case(rng, tier):
             'stages': [rng.choice(STAGES) for _ in range(rng.randint(1, 4))]}
 
 
+def gen_base_case(rng, tier):
+    """the known-finding stream: a BaseException in the MIDDLE of the spans and/or of the results"""
+    case = gen_case(rng, tier)
+    case['stream'] = 'cb-kf-base'
+    which = rng.choice(['spans', 'results', 'both'])
+    if which in ('spans', 'both'):
+        fs = faults(rng, rng.randint(2, 6), 0.0)
+        fs[rng.randrange(len(fs) - 1)] = 'base'
+        case['spans'] = fs
+    if which in ('results', 'both'):
+        res = [[rng.choice(['cb', 'cb', 'none', 'exc']), rng.random() < 0.5] for _ in range(rng.randint(2, 6))]
+        res[rng.randrange(len(res) - 1)] = ['base', False]
+        case['results'] = res
+    return case
+
+
 def corpus():
     return [{'kind': 'cb', 'stream': 'cb', 'spans': ['exc', None, 'exc', None],
              'results': [['cb', True], ['exc', False], ['none', True], ['cb', False], ['cb', True]],
@@ -289,6 +364,8 @@ def corpus():
 def label(case, obs):
     if 'raised' in obs:
         return 'cb/raised'
+    if base_mid(case['spans']) is not None or base_mid([h for h, _ in case['results']]) is not None:
+        return 'cb-kf-base/%s' % ('spans' if base_mid(case['spans']) is not None else 'results')
     f = 'base' if 'base' in case['spans'] or any(h == 'base' for h, _ in case['results']) else \
         'exc' if 'exc' in case['spans'] or any(h == 'exc' for h, _ in case['results']) else 'nofault'
     return 'cb/%s' % f
